@@ -460,3 +460,13 @@ def i10(ctx):
 
 
 RULES.append(i10)
+
+
+@rule("I11", doc="the variant enumeration behind the strong shape is the full product of the children's groups; its only shortcut is 'every child's group is trivial' (C04.M3b/M3c)")
+def i11(ctx):
+    from . import c04
+    c04.m3b(ctx)
+    c04.m3c(ctx)
+
+
+RULES.append(i11)
